@@ -1141,9 +1141,18 @@ def c06_23(ctx):
     cases = [("the honest spend `OP_0 <sig1> <sig2> <R>`", [0, b"SIG" + keys[0], b"SIG" + keys[1], R], True),
              ("`<R> OP_NOP`", [R, 0x61], False), ("`<R> OP_DUP OP_DROP`", [R, 0x76, 0x75], False), ("`OP_NOP <R>`", [0x61, R], False), ("`<R> <R>`", [R, R], False),
              ("`<junk> <R>`", [b"junk", R], False), ("`OP_1 <R>`", [0x51, R], False), ("`<R> OP_1`", [R, 0x51], False), ("`<R>` alone", [R], False)]
+    RW = b"<script:wpkh>"
+    scripts[RW] = [0, H(keys[0])]
+    spk_w = Obj("script", "P2SHScriptPubKey", {"commands": [0xA9, H(RW), 0x87]})
+    cases += [("p2sh-p2wpkh: `<junk> <RedeemScript>` with an empty witness", [b"junk", RW], False, spk_w, []),
+              ("p2sh-p2wpkh: `OP_1 <RedeemScript>` with an empty witness", [0x51, RW], False, spk_w, []),
+              ("p2sh-p2wpkh: `<RedeemScript>` with an empty witness", [RW], False, spk_w, [])]
     out = []
     try:
-        for label, sig_cmds, want in cases:
+        for case in cases:
+            label, sig_cmds, want = case[:3]
+            spk_case = case[3] if len(case) > 3 else spk
+            spk = spk_case
             ctx.count("cells")
             txin = Obj("tx", "TxIn", {"script_sig": Obj("script", "Script", {"commands": list(sig_cmds)}), "witness": Obj("witness", "Witness", {"items": []}), "sequence": 0xFFFFFFFF})
             tx = Obj("tx", "Tx", {"tx_ins": [txin], "network": "testnet", "locktime": 0, "version": 1})
@@ -1166,7 +1175,63 @@ def c06_23(ctx):
     return out
 
 
+def c06_24(ctx):
+    """a wrong control block is never accepted: its length must be 33 + 32*m (shared with C12.17) -- bytes that belong to no path hash are not
+    covered by any commitment, so a control block carrying them is malformed, not valid"""
+    from rules.C12 import c12_17
+    return c12_17(ctx)
+
+
+def c06_25(ctx):
+    """a tapscript multisig spend assembled by the library carries, for every key of the leaf in reverse key order, the signature *as it was
+    given* (its hash-type byte included) or an empty element, in front of the leaf script, the control block and an annex if there is one:
+    Tx.finalize_p2tr_multisig evaluated for 3-key leaves, every subset of signers, 64-byte (SIGHASH_DEFAULT) and 65-byte signatures, signatures
+    handed over in any order, with and without an annex.  Parsing, the digest and Schnorr verification are stand-ins"""
+    import itertools
+    from sa.cells import Evaluator, Obj, Raised, Undecided
+    spec = "tx:Tx.finalize_p2tr_multisig"
+    mod, fn = rl.get(ctx, spec)
+    hooks = {("SchnorrSignature", "parse"): lambda cls, b, *a, **k_: Obj("pecc", "SchnorrSignature", {"raw": bytes(b)}),
+             ("SchnorrSignature", "serialize"): lambda o: o.attrs["raw"],
+             ("S256Point", "verify_schnorr"): lambda p_, msg, sg: isinstance(sg, Obj) and sg.attrs["raw"][:1] == bytes([p_.attrs["id"]]) and msg == ("z", sg.attrs["raw"][1]),
+             ("Tx", "sig_hash"): lambda tx, idx, hash_type=None, *a, **k_: ("z", hash_type if hash_type is not None else (a[0] if a else None)),
+             ("Tx", "verify_input"): lambda tx, idx: True}
+    pts = [Obj("pecc", "S256Point", {"id": i + 1}) for i in range(3)]
+
+    def sig(i, ht):
+        body_ = bytes([i + 1, ht]) + bytes([0x5A]) * 62
+        return body_ if ht == 0 else body_ + bytes([ht])
+    cells = 0
+    try:
+        for annex in (False, True):
+            tail = [b"<tapscript>", b"<control block>"] + ([b"\x50annex"] if annex else [])
+            for subset in [c for r_ in range(0, 4) for c in itertools.combinations(range(3), r_)]:
+                for ht in (0, 1, 0x83):
+                    for order in (list(subset), list(reversed(subset))):
+                        cells += 1
+                        sigs = [sig(i, ht) for i in order]
+                        txin = Obj("tx", "TxIn", {"witness": Obj("witness", "Witness", {"items": list(tail)}), "tap_script": Obj("taproot", "MultiSigTapScript", {"points": list(pts)})})
+                        tx = Obj("tx", "Tx", {"tx_ins": [txin], "network": "testnet"})
+                        try:
+                            Evaluator(ctx.repo, method_hooks=hooks).call(spec, [0, sigs], self_obj=tx)
+                        except Raised as x:
+                            return [ctx.bad(spec, "finalising with signatures of keys %s (hash type %#x) raises %s" % ([i + 1 for i in subset], ht, x.name), fn, mod, key="tapscript-witness")]
+                        want = [sig(i, ht) if i in subset else b"" for i in (2, 1, 0)] + tail
+                        got = txin.attrs["witness"].attrs["items"]
+                        if got != want:
+                            why = "the hash-type byte of a 65-byte signature is lost" if [len(x) for x in got[:3]] != [len(x) for x in want[:3]] and ht else (
+                                "the leaf script / control block / annex at the end are not kept" if got[3:] != tail else "the signatures are not in reverse key order")
+                            return [ctx.bad(spec, "with signatures of keys %s (hash type %#x%s) the witness is %s: %s -- the spend signed by the owning subset does not verify" % (
+                                [i + 1 for i in subset], ht, ", annex present" if annex else "", [len(x) for x in got], why), fn, mod, key="tapscript-witness")]
+    except Undecided as u:
+        return [ctx.err(spec, "finalize_p2tr_multisig not evaluable: %s" % u, fn, mod)]
+    ctx.count("cells", cells)
+    return [ctx.ok(spec, "the witness is <sig or empty per key, reverse key order, bytes as given> ‖ script ‖ control block [‖ annex] in all %d cells" % cells, fn, mod, key="tapscript-witness")]
+
+
 OBLIGATIONS = [
+    ("C06.25", "CELLS tapscript witness", c06_25),
+    ("C06.24", "CELLS control block length (shared C12.17)", c06_24),
     ("C06.23", "CELLS p2sh ScriptSig", c06_23),
     ("C06.22", "DATAFLOW key format", c06_22),
     ("C06.21", "CELLS multisig", c06_21),
